@@ -440,7 +440,7 @@ func TestC02(t *testing.T) {
 	rec.SetJournalAll(true)
 	rec.Assume("tokens make a request recognisable: statement text for QUERY/PREPARE, bound value for EXECUTE/BATCH; the fake backend echoes them")
 
-	runProp(t, rec, "storm", perShard(evid.Pick(500, 20000)), func(rt *rapid.T) stormCase {
+	runProp(t, rec, "storm", perShard(evid.Pick(1000, 50000)), func(rt *rapid.T) stormCase {
 		c := c02Gen(rt)
 		labels, nreq, _, parks, _ := stormClassify(&c)
 		key := ""
@@ -465,7 +465,7 @@ func TestC02(t *testing.T) {
 		return oracleOneReply(res)
 	})
 
-	runProp(t, rec, "reuse", perShard(evid.Pick(300, 12000)), func(rt *rapid.T) c02Reuse {
+	runProp(t, rec, "reuse", perShard(evid.Pick(500, 40000)), func(rt *rapid.T) c02Reuse {
 		c := c02Reuse{Hosts: rapid.IntRange(1, 3).Draw(rt, "hosts"), Conns: rapid.IntRange(1, 2).Draw(rt, "conns")}
 		nc := rapid.IntRange(1, 4).Draw(rt, "nclients")
 		streams := rapid.IntRange(1, 3).Draw(rt, "nstreams")
